@@ -285,3 +285,99 @@ def keyed_writes(res, base_pred=lambda b: True):
             else:
                 out.append((None, a, e.live, e))
     return out
+
+
+# ------------------------------------------------- position algebra
+def count_rel(x: T):
+    """length of an index source relative to n = number of poses: 0 for n,
+    -1 for n-1; None when unknown."""
+    if x.op == "call" and tm.callee_name(x) == "builtins.len":
+        return 0
+    if x.op == "binop" and x.args[0] == "Sub" and \
+            tm.is_const(x.args[2]) and isinstance(x.args[2].args[1], int):
+        c = count_rel(x.args[1])
+        return None if c is None else c - x.args[2].args[1]
+    return None
+
+
+def index_source(x: T):
+    """(offset, count) of an index sequence 0+offset, 1+offset, ...: range(N),
+    np.arange(0, N, 1) and their [1:] / [:-1] slices."""
+    if x.op == "sub" and x.args[1].op == "slice":
+        lo, hi, st = x.args[1].args
+        inner = index_source(x.args[0])
+        if inner is None or st is not tm.NONE:
+            return None
+        o, c = inner
+        if c is None:
+            return None
+        if lo is not tm.NONE:
+            if not (tm.is_const(lo) and isinstance(lo.args[1], int)
+                    and lo.args[1] >= 0):
+                return None
+            o, c = o + lo.args[1], c - lo.args[1]
+        if hi is not tm.NONE:
+            if not (tm.is_const(hi) and isinstance(hi.args[1], int)
+                    and hi.args[1] < 0):
+                return None
+            c = c + hi.args[1]
+        return o, c
+    if x.op == "call" and tm.callee_name(x) in (
+            "builtins.list", "builtins.tuple", "numpy.array",
+            "numpy.asarray") and len(x.args[1]) == 1:
+        return index_source(x.args[1][0])
+    if x.op == "call" and tm.callee_name(x) in ("builtins.range",
+                                                "numpy.arange"):
+        pos = list(x.args[1])
+        if len(pos) == 1:
+            return 0, count_rel(pos[0])
+        if len(pos) in (2, 3) and tm.is_const(pos[0], 0) and \
+                (len(pos) == 2 or tm.is_const(pos[2], 1)):
+            return 0, count_rel(pos[1])
+    return None
+
+
+def index_position(i: T):
+    """(loop id, offset, count) of an index term k+offset."""
+    off = 0
+    while i.op == "binop" and i.args[0] == "Add" and \
+            tm.is_const(i.args[2]) and isinstance(i.args[2].args[1], int):
+        off += i.args[2].args[1]
+        i = i.args[1]
+    if i.op != "elem":
+        return None
+    src = index_source(i.args[0])
+    if src is None:
+        return None
+    return i.args[1], off + src[0], src[1]
+
+
+def seq_position(p: T):
+    """p as element k+offset of some sequence: (loop id, offset, count
+    relative to the sequence length, sequence)."""
+    if p.op == "sub" and p.args[1].op != "slice":
+        q = index_position(p.args[1])
+        if q is None:
+            return None
+        return q[0], q[1], q[2], p.args[0]
+    if p.op == "elem":
+        seq, off, cnt = p.args[0], 0, 0
+        while seq.op == "sub" and seq.args[1].op == "slice":
+            lo, hi, st = seq.args[1].args
+            if st is not tm.NONE:
+                return None
+            if lo is not tm.NONE:
+                if not (tm.is_const(lo) and isinstance(lo.args[1], int)
+                        and lo.args[1] >= 0):
+                    return None
+                off, cnt = off + lo.args[1], cnt - lo.args[1]
+            if hi is not tm.NONE:
+                if not (tm.is_const(hi) and isinstance(hi.args[1], int)
+                        and hi.args[1] < 0):
+                    return None
+                cnt += hi.args[1]
+            seq = seq.args[0]
+        return p.args[1], off, cnt, seq
+    return None
+
+
